@@ -68,6 +68,20 @@ def cases(rng, which, count):
                 yield Case("cli_lib", [st, "subsites"] + ss, True, "cli-subsites")
                 yield Case("cli_lib", [st, "subseq", "-s", str(rng.randint(-1, L)), "-l", str(rng.randint(-1, L + 1))], True, "cli-subseq")
                 yield Case("cli_lib", [st, "transpose"], True, "cli-transpose")
+                # every flag of subseq: defaults, reference coordinates, complement, sliding windows
+                fl = []
+                if rng.random() < 0.8:
+                    fl += ["-s", str(rng.randint(0, L))]
+                if rng.random() < 0.8:
+                    fl += ["-l", str(rng.randint(1, L + 1))]
+                k = rng.random()
+                if k < 0.3:
+                    fl += ["--ref-seq", rng.choice([r[0] for r in rows] + ["nope"])]
+                elif k < 0.6:
+                    fl += ["--step", str(rng.randint(1, 4))]
+                if rng.random() < 0.4:
+                    fl.append(rng.choice(["-r", "--reverse"]))
+                yield Case("cli_lib", [st, "subseq"] + fl, True, "cli-subseq-general")
             elif w == "consensus":
                 fl = [f for f in ("--ignore-gaps", "--ignore-n") if rng.random() < 0.4]
                 yield Case("cli_lib", [st, "consensus"] + fl, True, "cli-consensus")
@@ -85,6 +99,28 @@ def cases(rng, which, count):
                 if rep:
                     fl += ["--replace", rep]
                 yield Case("cli_lib", [st, "mask", "--unique"] + fl, True, "cli-mask-unique")
+                # every other way of addressing the sites: positions, windows on a reference sequence, protection flags
+                names = [r[0] for r in rows]
+                fl = []
+                if rep:
+                    fl += ["--replace", rep]
+                ref = rng.choice(names + ["nope"]) if rng.random() < 0.6 else None
+                if ref:
+                    fl += ["--ref-seq", ref]
+                    if rng.random() < 0.6:
+                        fl.append("--no-ref")
+                if rng.random() < 0.4:
+                    fl.append("--no-gaps")
+                k = rng.random()
+                if k < 0.4:
+                    fl += ["--pos", ",".join(str(rng.randint(0, L)) for _ in range(rng.randint(1, 4)))]
+                elif k < 0.8:
+                    fl += ["-s", str(rng.randint(0, L)), "-l", str(rng.randint(1, L + 1))]
+                elif k < 0.9:
+                    fl += ["-l", str(rng.randint(1, 12))]
+                yield Case("cli_lib", [st, "mask"] + fl, True, "cli-mask-general")
+                if ref and ref != "nope":
+                    yield Case("cli_lib", [st, "mask", "--unique", "--ref-seq", ref] + (["--at-most", str(rng.randint(0, 3))] if rng.random() < 0.5 else []), True, "cli-mask-unique-ref")
             elif w == "dedup":
                 rr = rows + [("d%d" % i, rng.choice(rows)[1]) for i in range(rng.randint(0, 3))]
                 if rng.random() < 0.5 and rr:
